@@ -92,7 +92,7 @@ Def(P, m, ids, vals) ==
 M0(P, orc, regkeys, accs, uf) ==
   Def(P,
       [pc |-> 1, status |-> "run", env |-> [i \in 1..P.nv |-> 0], defd |-> {}, ever |-> {},
-       last |-> <<>>, ocur |-> 0, log |-> <<>>, fault |-> "none", steps |-> 0,
+       last |-> <<>>, ocur |-> 0, scur |-> 0, log |-> <<>>, fault |-> "none", steps |-> 0,
        regs |-> [key \in regkeys |-> [def |-> FALSE, v |-> 0]],
        cur |-> [a \in accs |-> 0], uf |-> uf, mem |-> MemInit, core |-> 0],
       P.args, ArgVals(P, orc))
@@ -106,7 +106,7 @@ Vals(m, ids) == [i \in DOMAIN ids |-> m.env[ids[i]]]
 
 (* ids defined inside the region(s) of op i, including its block arguments *)
 BodyIds(P, i) ==
-  Range(P.ops[i].ba) \cup
+  Range(P.ops[i].ba) \cup Range(P.ops[i].ba2) \cup
   UNION {Range(P.ops[j].r) \cup Range(P.ops[j].ba) : j \in (i+1)..P.ops[i].end}
 
 (* uninterpreted functions *)
@@ -121,6 +121,7 @@ InternAll(uf, base, n, acc) ==   \* intern keys <<base, 1>> .. <<base, n>>, retu
        InternAll(InternTab(uf, key), base, n, Append(acc, UFBase + InternIdx(uf, key)))
 
 OracleVal(orc, cur) == orc.opq[(cur % Len(orc.opq)) + 1]
+StatusVal(orc, cur) == orc.st[(cur % Len(orc.st)) + 1]
 
 (***************************************************************************)
 (* One step                                                                *)
@@ -145,7 +146,20 @@ StepYield(P, m, i, op) ==
        ELSE Goto(Def(P, m1, h.r, vals), h.end + 1)
   ELSE IF h.k = "if"
   THEN Goto(Def(P, m1, h.r, vals), h.end + 1)
+  ELSE IF h.k = "while"
+  THEN Goto(Def(P, m1, h.ba, vals), hi + 1)
   ELSE Fault(m, "Unsupported:yield")
+
+(* scf.while: before-region ends in scf.condition(c, args); after-region in scf.yield *)
+StepWhile(P, m, i, op) ==
+  Adv(Def(P, [m EXCEPT !.defd = @ \ BodyIds(P, i)], op.ba, Vals(m, op.a)))
+
+StepCond(P, m, i, op) ==
+  LET hi == op.mid  h == P.ops[hi]
+      args == [k \in 1..(Len(op.a) - 1) |-> m.env[op.a[k + 1]]] IN
+  IF m.env[op.a[1]] # 0
+  THEN Goto(Def(P, m, h.ba2, args), h.mid)
+  ELSE Goto(Def(P, [m EXCEPT !.defd = @ \ BodyIds(P, hi)], h.r, args), h.end + 1)
 
 StepIf(P, m, i, op) ==
   IF m.env[op.a[1]] # 0 THEN Adv(m)
@@ -173,7 +187,11 @@ StepSetup(P, m, op) ==
       thr == P.thr = 1 /\ op.iv[1] = 1 /\ m.cur[acc] # op.a[nf + 1]
       m1 == [m EXCEPT !.regs = SetupWrite(@, acc, [k \in 1..nf |-> op.sv[k + 1]],
                                           [k \in 1..nf |-> m.env[op.a[k]]])]
-      m2 == Adv(Def(P, m1, op.r, <<0>>)) IN
+      m1b == IF P.logsetup = 1
+             THEN Log(m1, [k |-> "setup", i |-> m.pc, acc |-> acc, names |-> [k \in 1..nf |-> op.sv[k + 1]],
+                           vals |-> [k \in 1..nf |-> m.env[op.a[k]]], snap |-> Snapshot(m1.regs, acc)])
+             ELSE m1
+      m2 == Adv(Def(P, m1b, op.r, <<0>>)) IN
   IF thr THEN Fault(m2, "Threaded") ELSE m2
 
 StepLaunch(P, m, op) ==
@@ -209,8 +227,11 @@ StepCast(P, m, op) ==
 StepAsm(P, orc, m, op) ==
   LET t == op.sv[1] IN
   CASE t = "csrw" -> Adv(Log(m, [k |-> "w", i |-> m.pc, addr |-> op.iv[1], v |-> m.env[op.a[1]]]))
-    [] t = "csrr" -> Adv(Def(P, Log([m EXCEPT !.ocur = @ + 1], [k |-> "r", i |-> m.pc, addr |-> op.iv[1]]),
-                             op.r, <<OracleVal(orc, m.ocur)>>))
+    [] t = "csrr" -> Adv(Def(P, Log([m EXCEPT !.scur = @ + 1], [k |-> "r", i |-> m.pc, addr |-> op.iv[1]]),
+                             op.r, <<StatusVal(orc, m.scur)>>))
+    [] t = "csrw2" -> Adv(Log(m, [k |-> "w", i |-> m.pc, addr |-> m.env[op.a[1]], v |-> m.env[op.a[2]]]))
+    [] t = "csrr2" -> Adv(Def(P, Log([m EXCEPT !.scur = @ + 1], [k |-> "r", i |-> m.pc, addr |-> m.env[op.a[1]]]),
+                              op.r, <<StatusVal(orc, m.scur)>>))
     [] t = "nop" -> Adv(m)
     [] t = "insn" -> Adv(Log(m, [k |-> "insn", i |-> m.pc, f7 |-> op.iv[3], rs1 |-> m.env[op.a[1]], rs2 |-> m.env[op.a[2]]]))
     [] t = "insn_rd" -> Adv(Def(P, Log([m EXCEPT !.ocur = @ + 1],
@@ -230,6 +251,8 @@ MStepRaw(P, orc, m) ==
          [] op.k = "for" -> StepFor(P, m, i, op)
          [] op.k = "yield" -> StepYield(P, m, i, op)
          [] op.k = "if" -> StepIf(P, m, i, op)
+         [] op.k = "while" -> StepWhile(P, m, i, op)
+         [] op.k = "cond" -> StepCond(P, m, i, op)
          [] op.k = "ret" -> Log([m EXCEPT !.status = "done"], [k |-> "ret", i |-> i, vals |-> Vals(m, op.a)])
          [] op.k = "setup" -> StepSetup(P, m, op)
          [] op.k = "launch" -> StepLaunch(P, m, op)
